@@ -17,7 +17,14 @@ import contextlib
 import os
 import signal
 
-CALL_TIMEOUT = int(os.environ.get('VERIF_CALL_TIMEOUT', '900'))
+CALL_TIMEOUT = int(os.environ.get('VERIF_CALL_TIMEOUT', '300' if os.environ.get('VERIF_TIER_RUNNING') == 'quick' else '1500'))
+
+
+MAX_CONCEPTS = 60000     # no context of the corpus has more than a few thousand concepts
+
+
+class ResultTooLarge(Exception):
+    """A result far larger than any correct one can be (recorded like an exception on a valid input)."""
 
 
 class CallTimeout(Exception):
@@ -46,6 +53,23 @@ class CtxRecorder:
         self.emit = emit
         self.C = concepts_mod
         self.b = 0
+        self._kind = 0
+
+    def arg(self, items):
+        """The argument as one of several kinds of iterable (the API documents Iterable[str]): list, tuple,
+        one-shot generator, iterator, dict keys view."""
+        self._kind += 1
+        k = self._kind % 6
+        items = list(items)
+        if k == 1:
+            return tuple(items)
+        if k == 2:
+            return (x for x in items)
+        if k == 3:
+            return iter(items)
+        if k == 4 and len(set(map(id, items))) == len(items) and len(set(items)) == len(items):
+            return dict.fromkeys(items).keys()
+        return items
 
     # ---------------------------------------------------------------- setup
     def new(self, table, b, label_variant=0):
@@ -81,6 +105,8 @@ class CtxRecorder:
     @property
     def members(self):
         if self._members is None:
+            if len(self.ctx.lattice) > MAX_CONCEPTS:
+                raise ResultTooLarge(f'lattice with {len(self.ctx.lattice)} members')
             self._members = list(self.ctx.lattice)
             self._ids = {id(c): i for i, c in enumerate(self._members)}
         return self._members
@@ -94,11 +120,11 @@ class CtxRecorder:
 
     # ------------------------------------------------------------------ C01
     def intension(self, objs, raw):
-        r = self.ctx.intension(self.olab(objs), raw=raw)
+        r = self.ctx.intension(self.arg(self.olab(objs)), raw=raw)
         self.ev('intension', objs=objs, raw=raw, res=self.P(r.members() if raw else r))
 
     def extension(self, props, raw):
-        r = self.ctx.extension(self.plab(props), raw=raw)
+        r = self.ctx.extension(self.arg(self.plab(props)), raw=raw)
         self.ev('extension', props=props, raw=raw, res=self.O(r.members() if raw else r))
 
     # ------------------------------------------------------------------ C02
@@ -132,6 +158,8 @@ class CtxRecorder:
     # ------------------------------------------------------------------ C03
     def lat_list(self):
         lat = self.ctx.lattice
+        if len(lat) > MAX_CONCEPTS:
+            raise ResultTooLarge(f'lattice with {len(lat)} members')
         self.ev('lattice.list', res=[[self.O(c.extent), self.P(c.intent)] for c in lat], len=len(lat))
 
     # ------------------------------------------------------------------ C04
@@ -150,7 +178,7 @@ class CtxRecorder:
                 lo=[[self.ext(d) for d in c.lower_neighbors] for c in ms])
 
     def neighbors(self, objs, raw):
-        r = self.ctx.neighbors(self.olab(objs), raw=raw)
+        r = self.ctx.neighbors(self.arg(self.olab(objs)), raw=raw)
         if raw:
             res = [[self.O(x.members()), self.P(i.members())] for x, i in r]
         else:
@@ -173,7 +201,7 @@ class CtxRecorder:
         ms = self.members
         args = [ms[i] for i in idxs]
         if form == 'nary':
-            r = getattr(lat, name)(args)
+            r = getattr(lat, name)(self.arg(args))
         elif form == 'method':
             r = getattr(args[0], name)(args[1])
         else:
@@ -206,14 +234,21 @@ class CtxRecorder:
         lat = self.ctx.lattice
         ms = self.members
         seeds = [ms[i] for i in idxs]
+        self._kind += 1
+        if self._kind % 4 == 0 and len(ms) > 2:
+            # a consumer that stops early: start traversals, advance them a little, drop them
+            for it0 in (ms[0].upset(), ms[-1].downset(), lat.upset_union(ms[:2]), lat.downset_union(ms[-2:])):
+                for _x in itertools.islice(it0, 2):
+                    pass
+                del it0
         if name == 'upset':
             it, key = seeds[0].upset(), 'index'
         elif name == 'downset':
             it, key = seeds[0].downset(), 'dindex'
         elif name == 'upset_union':
-            it, key = lat.upset_union(seeds), 'index'
+            it, key = lat.upset_union(self.arg(seeds)), 'index'
         else:
-            it, key = lat.downset_union(seeds), 'dindex'
+            it, key = lat.downset_union(self.arg(seeds)), 'dindex'
         # a traversal can never yield more members than the lattice has; cut runaway generators short
         # (the repeats in the kept prefix already falsify the clause)
         res = list(itertools.islice(it, 2 * len(ms) + 8))
@@ -561,9 +596,10 @@ def drive(rec, table, b, families, rng, exhaustive_queries, nsub=10, nmulti=12, 
         osubs = corpus.wide_subsets(n, rng) if n > 20 else sample_subsets(n, nsub, rng)
         psubs = corpus.wide_subsets(m, rng) if m > 20 else sample_subsets(m, nsub, rng)
     lattice_fams = {'C02L', 'C03', 'C05', 'C06', 'C07', 'C08', 'C09', 'C10', 'C15', 'C18', 'C20'}
-    if table.tag.startswith(('widecontra', 'wideanti', 'widerand')):
-        families = families - lattice_fams - {'C04', 'C05'}      # astronomically many concepts: derivations only
-    nolattice = table.tag.startswith(('widecontra', 'wideanti', 'widerand'))
+    if table.tag.startswith(('widecontra', 'wideanti', 'widerand', 'giant')):
+        # astronomically many concepts (or a giant axis): derivations only; the giant tables keep the generators
+        families = families - lattice_fams - ({'C05'} if table.tag.startswith('giant') else {'C04', 'C05'})
+    nolattice = table.tag.startswith(('widecontra', 'wideanti', 'widerand', 'giant'))
     if 'C05' in families and b % 2 == 0:
         # the lazy lattice is state: query the covers BEFORE it is computed on half of the behaviours ...
         for s in osubs:
@@ -606,7 +642,8 @@ def drive(rec, table, b, families, rng, exhaustive_queries, nsub=10, nmulti=12, 
             T(rec.lat_getitem, 'int', i=i)
     if 'C04' in families:
         T(rec.gens)
-        T(rec.lat_list)
+        if not nolattice:
+            T(rec.lat_list)
     if 'C05' in families:
         T(rec.lat_links)
         for s in osubs:
